@@ -237,7 +237,7 @@ def eval_shard(path):
     body = m.group(1)
     if body == "nil":
         return [], o
-    ids = [int(x.replace("%nat", "").strip()) for x in body.strip("[]").split(";") if x.strip()]
+    ids = [int(x.replace("%nat", "").replace("%N", "").strip()) for x in body.strip("[]").split(";") if x.strip()]
     return ids, o
 
 
